@@ -11,4 +11,4 @@ Extraction "../ocaml/model.ml"
   choose_te chunked_threshold
   parse_response parse_stream te_entries ref_choice oracle_c05 oracle_c19 oracle_c04
   serve fixed asfound read_head framing last_request
-  mq_init mq_step tp_init tp_step sw_init sw_step ahead ahead_two sd_init sd_step cc_init cc_step cc_closed mq_step_replay.
+  mq_init mq_step tp_init tp_step sw_init sw_step ahead ahead_two sd_init sd_step cc_init cc_step cc_closed mq_step_replay tp_step_replay.
